@@ -12,7 +12,9 @@ def handlers : List (String × (List String → Option String)) :=
     ("expr-accept", Expr.handle "expr-accept"), ("expr-eval", Expr.handle "expr-eval"), ("plotstr", Expr.handle "plotstr"),
     ("rng", Rng.handle),
     ("agg", Aggregate.handle), ("cascade", Cascade.handle),
-    ("constrain", Alloc.handle), ("hardcon", Alloc.handleHardcon), ("package", Alloc.handlePackageKind) ]
+    ("constrain", Alloc.handle), ("hardcon", Alloc.handleHardcon), ("package", Alloc.handlePackageKind),
+    ("asd", Protocol.handle), ("objective", Protocol.Objective.handle), ("calobj", Protocol.Objective.handleCal),
+    ("bracket", Protocol.Bracket.handle), ("skeleton", Protocol.Skeletons.handle) ]
 
 /-- One request per line: `<kind> <args…>`; one canonical reply per line. -/
 def dispatch (line : String) : String :=
